@@ -7,6 +7,55 @@ VERIF = os.path.dirname(os.path.dirname(os.path.abspath(__file__)))
 def sh(cmd, cwd=None):
     p = subprocess.run(cmd, shell=True, cwd=cwd, capture_output=True, text=True, timeout=900)
     return p.returncode, p.stdout + p.stderr
+def scratch_run(jobs: int) -> int:
+    """the same regression on scratch worktrees of /repo's HEAD (outside /repo and /verif), `jobs` seeds at a time"""
+    import tempfile, shutil
+    from concurrent.futures import ThreadPoolExecutor
+    import queue
+    base = tempfile.mkdtemp(prefix="jfsa_seeds_")
+    pool: "queue.Queue[str]" = queue.Queue()
+    for i in range(jobs):
+        wt = os.path.join(base, f"w{i}")
+        rc, o = sh(f"git -C /repo worktree add --detach -f {wt} HEAD -q")
+        assert rc == 0, o
+        pool.put(wt)
+    seeds = sorted(glob.glob(os.path.join(VERIF, "seeded", "*")))
+
+    def one(d: str):
+        name = os.path.basename(d)
+        pid = name.split("_")[0]
+        meta = json.load(open(os.path.join(d, "meta.json")))
+        expected = meta.get("detected_by_own_property_check", True)
+        wt = pool.get()
+        try:
+            rc, o = sh(f"git apply {d}/patch.diff", wt)
+            if rc != 0:
+                return name, f"{name} patch does not apply: {o.strip()[:100]}", False
+            rc, o = sh(f"./check {pid} --tier quick --no-evidence --repo {wt}", VERIF)
+        finally:
+            sh("git checkout -q -- . && git clean -fdq", wt)
+            pool.put(wt)
+        rules = sorted({l.split("]")[1].split()[0] for l in o.splitlines() if " VIOLATED at " in l})
+        status = "VIOLATION" if rc == 1 else ("ANALYSIS-ERROR" if rc == 2 else "silent")
+        changed = (rc == 1) != bool(expected)
+        flag = "   <-- CHANGED (recorded detected=%s)" % expected if changed else ""
+        return name, f"{name}: {status} {rules[:4]}{flag}", bool(changed and expected)
+    bad_ = 0
+    try:
+        with ThreadPoolExecutor(jobs) as ex:
+            for name, line, is_bad in ex.map(one, seeds):
+                print(line, flush=True)
+                bad_ += 1 if is_bad else 0
+    finally:
+        while not pool.empty():
+            sh(f"git -C /repo worktree remove --force {pool.get()}")
+        shutil.rmtree(base, ignore_errors=True)
+        sh("git -C /repo worktree prune")
+    return bad_
+
+
+if len(sys.argv) > 2 and sys.argv[1] == "--scratch":
+    sys.exit(1 if scratch_run(int(sys.argv[2])) else 0)
 assert not sh("git status --porcelain", "/repo")[1].strip(), "repo dirty"
 bad = 0
 for d in sorted(glob.glob(os.path.join(VERIF, "seeded", "*"))):
